@@ -49,8 +49,4 @@ harnesses! {
     fn c18_t_kmer_dna_k1 [10] { kmer_rt!(kmer, any_usize, usize, Dna, 1) }
     fn c18_t_kmer_iupac_k16 [10] { kmer_rt!(kmer, any_usize, usize, Iupac, 16) }
     fn c18_t_kmer_dna_k64_u128 [18] { kmer_rt!(kmer128, any_u128, u128, Dna, 64) }
-    fn c18_q_seq_dna_l2 [10] { seq_rt!(Dna, oracle::DNA, 64, 3, 2, 2) }
-    fn c18_q_seq_dna_empty [10] { seq_rt!(Dna, oracle::DNA, 64, 3, 0, 0) }
-    fn c18_t_seq_dna_l3_spare [10] { seq_rt!(Dna, oracle::DNA, 64, 31, 3, 40) }
-    fn c18_t_seq_amino_l2 [10] { seq_rt!(Amino, oracle::AMINO, 21, 10, 2, 2) }
 }
